@@ -167,7 +167,7 @@ func init() {
 		ID:        "C02",
 		Level:     "model_checking",
 		Technique: "bounded exhaustive enumeration of programs x gas limits (every step boundary -1/0/+1 and complete ranges for cheap programs) executed on the real interpreter with a recording debug tracer, compared event by event with upstream go-ethereum v1.12.0",
-		Rule: "cases = C01's IM/SEQ/ENTRY/EIPS families x access-list state (cold, and all-warm on Berlin+) x gas limits: {0,1,2300,2301} + {v-1,v,v+1, and their 64/63 images} for v = cumulative gas at every step boundary of the ample-gas reference run (all depths) + every limit in [0,used+1] when the run uses <= full_sweep_below gas. Per execution the sequences (pc, op, gas before, cost, depth, refund counter, error) of every step, gas handed to / used by every frame, leftover and failure class must equal the reference. evaluations = (case, limit) pairs; states = distinct reference event streams; non-trivial = distinct (case, limit) pairs whose reference run ended out of gas in some frame",
+		Rule: "cases = C01's IM/SEQ/ENTRY/EIPS/SSTORESEQ/SDSEQ/CREATESEQ families and scenario trees x access-list state (cold, and all-warm on Berlin+) x gas limits: {0,1,2300,2301} + {v-1,v,v+1, and their 64/63 images} for v = cumulative gas at every step boundary of the ample-gas reference run (all depths) + every limit in [0,used+1] when the run uses <= full_sweep_below gas. Per execution the sequences (pc, op, gas before, cost, depth, refund counter, error) of every step, gas handed to / used by every frame, leftover and failure class must equal the reference. evaluations = (case, limit) pairs; states = distinct reference event streams; non-trivial = distinct (case, limit) pairs whose reference run ended out of gas in some frame",
 		Assumptions: []string{
 			"reference model is go-ethereum v1.12.0 core/vm with an equivalent recording EVMLogger",
 			"limits strictly between step boundaries are only swept completely for programs below full_sweep_below gas",
@@ -183,7 +183,7 @@ func init() {
 			sess := stdSession()
 			forEachStdCase(w, o, func(base *world.Case, family string) {
 				sess := sess
-				if family == "SCN" || family == "SSTORESEQ" || family == "SDSEQ" {
+				if family == "SCN" || family == "SSTORESEQ" || family == "SDSEQ" || family == "CREATESEQ" {
 					sess = world.NewSession(base.Accounts)
 				}
 				variants := []*world.Case{base}
